@@ -173,6 +173,12 @@ def gen_group(rng, gid):
                 t0, a0 = fresh(srcs[i])
                 ops.append(("a", i, t0, a0))
                 ops.append(("w", i, 0, a0))
+            elif r < 0.6:
+                # an earlier version with the SAME attributes (Path.Equal holds) that differs only in what the decision
+                # process reads beside the attributes: the receive time and the reachability of the next hop
+                # (the harness marks a path with a community made from its tag: the same tag keeps the attribute bytes equal)
+                a0 = dict(final[i][1], ts=rng.choice(prof["tss"] + [1, 9]), nhinv=rng.choice([0, 1, 1 - final[i][1]["nhinv"]]))
+                ops.append(("a", i, final[i][0], a0))
             ops.append(("a", i, final[i][0], final[i][1]))
         # interleave: random legal shuffle that keeps per-source order
         per = {}
